@@ -53,12 +53,12 @@ func GenTargeted(seed int64, idx int, profile string) (GCase, bool) {
 		files: map[string]string{}, feats: map[string]bool{}}
 	fams := map[string][]func(*tgen){
 		"nesting":    {famNested, famNested, famNestedConvRoot, famCandidates},
-		"notations":  {famNested, famNestedConvRoot, famCaseFlip, famRefs, famPerMethodLists, famGetterShapes},
+		"notations":  {famNested, famNestedConvRoot, famCaseFlip, famRefs, famPerMethodLists, famGetterShapes, famConvShapes},
 		"scoping":    {famPerMethodLists, famPerMethodLists, famIntfLevel},
 		"hooks":      {famSharedHooks, famSharedHooks, famHookShapes},
 		"errors":     {famErrors, famSharedHooks, famErrors},
 		"signatures": {famSignatures, famSignatures, famGenerics},
-		"selection":  {famSelection, famSelection},
+		"selection":  {famSelection, famSelection, famEmbedded},
 		"imports":    {famImports, famImportNames, famImportNames},
 		"matching":   {famMatching, famCandidates, famCandidates, famImports, famGetterShapes, famImportNames, famGenerics, famPlain, famPlain},
 		"plain":      {famPlain},
@@ -69,7 +69,7 @@ func GenTargeted(seed int64, idx int, profile string) (GCase, bool) {
 		"generics":   {famGenerics, famImportNames},
 		"simple":     {famRefs, famPlain},
 		"mixed":      {famNested, famPerMethodLists, famSharedHooks, famErrors, famSignatures, famImports, famMatching, famSlices, famRefs, famCaseFlip, famCandidates, famGetterShapes, famImportNames, famGenerics},
-		"malformed":  {famSharedHooks, famErrors},
+		"malformed":  {famSharedHooks, famErrors, famConvShapes, famConvShapes, famEmbedded, famEmbedded},
 	}
 	fs, ok := fams[profile]
 	if !ok {
@@ -563,8 +563,16 @@ type FieldError struct{ F string }
 
 func (e *FieldError) Error() string { return e.F }
 
-type SI struct{ X, Y string }
-type DI struct{ X, Y int }
+type SI2 struct{ P, Q string }
+type DI2 struct{ P, Q int }
+type SI struct {
+	X, Y string
+	Deep SI2
+}
+type DI struct {
+	X, Y int
+	Deep DI2
+}
 type S struct {
 	A, B string
 	In   SI
@@ -600,6 +608,7 @@ func postC(d *D, s *S) *FieldError        { return nil }
 	sb.WriteString("type Convergen interface {\n")
 	for j := 0; j < 1+t.r.Intn(3); j++ {
 		for _, l := range []string{":conv atoi A", ":conv atoi B", ":conv atoi In.X", ":conv atoi In.Y", ":conv plain A", ":map N() N", ":map Plain() P",
+			":conv atoi In.Deep.P", ":conv atoi In.Deep.Q", ":conv atoi In.Deep.P In.Deep.Q", ":conv plain In.Deep.P",
 			":preprocess pre", ":postprocess post", ":conv atoiC B", ":postprocess postC", ":map Concrete() N", ":getter",
 			// error-returning calls whose value does not fit as it is: only a conversion / String() could make it fit
 			":typecast", ":stringer", ":conv atoi A N", ":conv atoi In.X P", ":map N() A", ":conv atoiM A B", ":map Num() N"} {
@@ -734,7 +743,10 @@ func famSelection(t *tgen) {
 	if t.ch(0.3) {
 		// two marked interfaces asking for a function of the same name: plain (a clash) or with receivers of
 		// different types (legal)
-		switch t.r.Intn(3) {
+		switch t.r.Intn(4) {
+		case 3:
+			// the README's example: the same receiver name and method name on two different receiver types
+			sb.WriteString("// :convergen\ntype Twin1 interface {\n\t// :recv m\n\tSame(*S) *D\n}\n\n// :convergen\ntype Twin2 interface {\n\t// :recv m\n\tSame(*D) *S\n}\n")
 		case 0:
 			sb.WriteString("// :convergen\ntype Twin1 interface {\n\tSame(*S) *D\n}\n\n// :convergen\ntype Twin2 interface {\n\tSame(*D) *S\n}\n")
 		case 1:
@@ -1111,9 +1123,10 @@ func famGenerics(t *tgen) {
 func famPlain(t *tgen) {
 	t.feat("family:plain-struct-pairs")
 	pool := []string{"int", "int64", "string", "bool", "*int", "MyInt", "Inner", "Inner2", "*Inner", "interface{}", "error", "map[string]int",
-		"[2]int", "func() error", "chan int", "Stringer", "Status", "E1", "E2", "struct{ K, V int }", "ext.Pub", "*ext.Pub", "ext.Kind"}
+		"[2]int", "func() error", "chan int", "Stringer", "Status", "E1", "E2", "struct{ K, V int }", "ext.Pub", "*ext.Pub", "ext.Kind",
+		"struct {\n\t\tKey string\n\t\trev int\n\t}", "struct {\n\t\tKey string\n\t\trev int64\n\t\tn   bool\n\t}", "struct{ hidden int }", "ext.Anon"}
 	names := []string{"A", "B", "C", "Dd", "E", "F", "G", "H", "id", "name", "In", "Out", "Ext"}
-	ext := "package ext\n\ntype Kind int\ntype Pub struct {\n\tA int\n\tb int\n}\n"
+	ext := "package ext\n\ntype Kind int\ntype Pub struct {\n\tA int\n\tb int\n}\ntype Anon struct {\n\tMeta struct {\n\t\tKey string\n\t\trev int\n\t}\n}\n"
 	var ty strings.Builder
 	fmt.Fprintf(&ty, "package %s\n\nimport \"exp/%s/ext\"\n\nvar _ ext.Kind\n\ntype MyInt int\ntype Stringer interface{ String() string }\ntype Status string\n\nfunc (s Status) String() string { return string(s) }\n\ntype E1 struct{}\ntype E2 struct{}\ntype Inner struct {\n\tX int\n\tY string\n}\ntype Inner2 struct {\n\tX int\n\tY string\n\tZ bool\n}\n\n", t.name, t.name)
 	nPairs := 1 + t.r.Intn(3)
@@ -1149,6 +1162,107 @@ func famPlain(t *tgen) {
 	t.files[t.name+"/setup.go"] = sb.String()
 	t.files[t.name+"/types.go"] = ty.String()
 	t.files[t.name+"/ext/ext.go"] = ext
+}
+
+// ---- functions of every shape named by :conv / :preprocess / :postprocess ---------------------------------------
+
+func famConvShapes(t *tgen) {
+	t.feat("family:function-shape-grid")
+	ty := fmt.Sprintf(`package %s
+
+type S struct{ A, B int }
+type D struct{ A, B int }
+
+func ok1(i int) int                  { return i }
+func okErr(i int) (int, error)       { return i, nil }
+func noParam() int                   { return 0 }
+func noResult(i int)                 {}
+func noParamNoResult()               {}
+func twoParams(i, j int) int         { return i }
+func twoResults(i int) (int, int)    { return i, i }
+func threeResults(i int) (int, int, error) { return i, i, nil }
+func errFirst(i int) (error, int)    { return nil, i }
+func onlyErr(i int) error            { return nil }
+func variadic(i ...int) int          { return 0 }
+func generic[T any](v T) T           { return v }
+func ptrParam(i *int) int            { return 0 }
+func ifaceParam(i interface{}) int   { return 0 }
+func namedRes(i int) (r int)         { return i }
+
+var notFunc = 1
+
+type fnType func(int) int
+
+var fnVar fnType = ok1
+var fnLit = func(i int) int { return i }
+
+type recvT struct{}
+
+func (recvT) Method(i int) int { return i }
+
+func hookOk(d *D, s *S)                  {}
+func hookNoParam()                       {}
+func hookOne(d *D)                       {}
+func hookThree(d *D, s *S, n int)        {}
+func hookRes(d *D, s *S) int             { return 0 }
+func hookTwoRes(d *D, s *S) (int, error) { return 0, nil }
+func hookErr(d *D, s *S) error           { return nil }
+func hookVariadic(d *D, s ...*S)         {}
+`, t.name)
+	convs := []string{"ok1", "okErr", "noParam", "noResult", "noParamNoResult", "twoParams", "twoResults", "threeResults", "errFirst", "onlyErr", "variadic",
+		"generic", "ptrParam", "ifaceParam", "namedRes", "notFunc", "fnType", "fnVar", "fnLit", "recvT.Method", "missing", "S", "strconv.Itoa", "nosuch.F", t.name + ".ok1"}
+	hooks := []string{"hookOk", "hookNoParam", "hookOne", "hookThree", "hookRes", "hookTwoRes", "hookErr", "hookVariadic", "ok1", "notFunc", "fnVar", "missing", "noParamNoResult"}
+	var sb strings.Builder
+	sb.WriteString(header(t))
+	sb.WriteString("type Convergen interface {\n")
+	for j := 0; j < 1+t.r.Intn(3); j++ {
+		if t.ch(0.8) {
+			fmt.Fprintf(&sb, "\t// :conv %s A\n", convs[t.r.Intn(len(convs))])
+		}
+		if t.ch(0.3) {
+			fmt.Fprintf(&sb, "\t// :conv %s A B\n", convs[t.r.Intn(len(convs))])
+		}
+		if t.ch(0.4) {
+			fmt.Fprintf(&sb, "\t// :%s %s\n", t.pick("preprocess", "postprocess"), hooks[t.r.Intn(len(hooks))])
+		}
+		fmt.Fprintf(&sb, "\tM%d(*S) %s\n", j, t.pick("*D", "(*D, error)"))
+	}
+	sb.WriteString("}\n")
+	t.files[t.name+"/setup.go"] = sb.String()
+	t.files[t.name+"/types.go"] = ty
+}
+
+// ---- converter interfaces that embed other interfaces; own and inherited methods that fail ----------------------
+
+func famEmbedded(t *tgen) {
+	t.feat("family:embedded-interfaces")
+	ty := fmt.Sprintf("package %s\n\ntype S struct{ A int }\ntype D struct{ A int }\n\ntype Base interface {\n\tFromBase(*S) *D\n}\n", t.name)
+	bad := []string{":style pointer", ":match maybe", ":conv nosuch A", ":map", ":literal A", ":recv 9x", ":skip /(/", ":postprocess nosuch", ":reverse"}
+	var sb strings.Builder
+	sb.WriteString(header(t))
+	if t.ch(0.5) {
+		sb.WriteString("type Mixin interface {\n")
+		if t.ch(0.4) {
+			sb.WriteString("\t// " + bad[t.r.Intn(len(bad))] + "\n")
+		}
+		sb.WriteString("\tFromMixin(*S) *D\n}\n\n")
+	} else {
+		sb.WriteString("type Mixin interface {\n\tFromMixin(*S) *D\n\tOther(*D) *S\n}\n\n")
+	}
+	sb.WriteString("type Convergen interface {\n")
+	emb := t.pick("Mixin", "Base", "Mixin\n\tBase")
+	if t.ch(0.8) {
+		sb.WriteString("\t" + emb + "\n")
+	}
+	for j := 0; j < 1+t.r.Intn(3); j++ {
+		if t.ch(0.45) {
+			sb.WriteString("\t// " + bad[t.r.Intn(len(bad))] + "\n")
+		}
+		fmt.Fprintf(&sb, "\tOwn%d(*S) *D\n", j)
+	}
+	sb.WriteString("}\n")
+	t.files[t.name+"/setup.go"] = sb.String()
+	t.files[t.name+"/types.go"] = ty
 }
 
 // ---- slices ---------------------------------------------------------------------------------------------------
